@@ -342,6 +342,36 @@ def _cs_lookup(tree):
     return [f for f in _methods(st[0]).values() if "reversed" in _calls(f)]
 
 
+def _subscript_store_names(fn: ast.AST) -> List[str]:
+    out = []
+    for n in ast.walk(fn):
+        if isinstance(n, ast.Assign):
+            for t in n.targets:
+                if isinstance(t, ast.Subscript) and isinstance(t.value, ast.Name):
+                    out.append(t.value.id)
+    return out
+
+
+def _registry_of(tree, public_fn: str):
+    fs = [f for f in _top_funcs(tree) if f.name == public_fn]
+    if len(fs) != 1:
+        return []
+    declared = {a.arg for a in fs[0].args.args}
+    names = sorted({x for x in _subscript_store_names(fs[0]) if x not in declared})
+    top = {t.id for n in tree.body if isinstance(n, (ast.Assign, ast.AnnAssign)) for t in (n.targets if isinstance(n, ast.Assign) else [n.target]) if isinstance(t, ast.Name)}
+    return [_N(x) for x in names if x in top]
+
+
+def _load_defaults(tree):
+    out = []
+    for f in _top_funcs(tree):
+        for n in ast.walk(f):
+            if isinstance(n, ast.Assign) and any(isinstance(t, ast.Subscript) and isinstance(t.slice, ast.Constant) and t.slice.value == "len" for t in n.targets):
+                out.append(f)
+                break
+    return out
+
+
 # canonical name -> (module, finder)
 ROLES: Dict[str, Tuple[str, Callable]] = {
     "_fill_in_default_arguments": ("func_adl.type_based_replacement", _fill),
@@ -367,6 +397,9 @@ ROLES: Dict[str, Tuple[str, Callable]] = {
     "convert_call_to_dict": ("func_adl.ast.syntatic_sugar", _convert_call_to_dict),
     "_lookup_dict": ("func_adl.util_ast", _lookup_dict),
     "_ignore_stack": ("func_adl.util_ast", _ignore_stack),
+    "_global_functions": ("func_adl.type_based_replacement", lambda t: _registry_of(t, "register_func_adl_function")),
+    "_g_collection_classes": ("func_adl.type_based_replacement", lambda t: _registry_of(t, "register_func_adl_os_collection")),
+    "_load_default_global_functions": ("func_adl.type_based_replacement", _load_defaults),
     "_old_ast": ("func_adl.type_based_replacement", _old_ast),
     "_q_metadata": ("func_adl.object_stream", _q_metadata),
     "argument_stack": ("func_adl.ast.call_stack", _cs_stack_class),
@@ -553,7 +586,7 @@ def canonicalise(trees: Dict[str, ast.Module]) -> Dict[str, str]:
         tree = trees.get(mod)
         if tree is None:
             continue
-        present = any(getattr(n, "name", None) == canon for n in ast.walk(tree) if isinstance(n, (ast.FunctionDef, ast.AsyncFunctionDef, ast.ClassDef))) or any(isinstance(n, ast.Attribute) and n.attr == canon for n in ast.walk(tree))
+        present = any(getattr(n, "name", None) == canon for n in ast.walk(tree) if isinstance(n, (ast.FunctionDef, ast.AsyncFunctionDef, ast.ClassDef))) or any(isinstance(n, ast.Attribute) and n.attr == canon for n in ast.walk(tree)) or any(isinstance(n, ast.Name) and n.id == canon for n in ast.walk(tree))
         if present:
             continue
         try:
